@@ -134,7 +134,11 @@ func Reach(label string) {}
 // Observe records values for evidence samples / replay logs.
 func Observe(label string, v ...any) {
 	if os.Getenv("SYMX_VERBOSE") != "" {
-		fmt.Println("SYMX-OBSERVE", label, fmt.Sprint(v...))
+		line := "SYMX-OBSERVE " + label
+		for _, x := range v {
+			line += " " + fmt.Sprint(x)
+		}
+		fmt.Println(line)
 	}
 }
 
